@@ -28,7 +28,7 @@ void harness_case(Dec &d, Case &c) {
     for (char ch : base) { if (ch >= 'a' && ch <= 'z' && d.pick(3) == 0) { scheme.push_back((char)(ch - 32)); mixed = true; } else scheme.push_back(ch); }
     bool ksiScheme = si <= 3; bool embed = (ksiScheme || si >= 5) && d.pick(2) == 0; std::string eu = "usr" + std::to_string(100 + d.pick(900)), ek = "Key" + std::to_string(1000 + d.pick(9000)) + "Zq";
     static const char *hosts[] = {"agg.example.test", "a-b_c.example", "10.1.2.3", "[::1]", "[2001:db8::7]", "h"}; unsigned hi = d.pick(6); std::string host = hosts[hi]; bool v6 = host[0] == '[';
-    unsigned pm = d.pick(6); unsigned port = pm == 0 ? 0 : pm == 1 ? 1 : pm == 2 ? 65535 : pm == 3 ? 8080 : 1 + d.pick(65535); if (si == 3 && port == 0) port = 3333;
+    unsigned pm = d.pick(6); if (v6 && pm >= 4) { host = hi == 3 ? "[::ffff:127.0.0.1]" : "[64:ff9b::192.0.2.33]"; c.cls("host:ipv6-with-dotted-ipv4-tail"); } /* derived from the port mode: no additional draw */ unsigned port = pm == 0 ? 0 : pm == 1 ? 1 : pm == 2 ? 65535 : pm == 3 ? 8080 : 1 + d.pick(65535); if (si == 3 && port == 0) port = 3333;
     static const char *paths[] = {"", "/", "/gt-signingservice", "/a/b.c", "/ksi%2Faggr", "/a%7Eb/%20s", "/p%3Aq%5Fr%2e", "/x%25y/%64%6e"}; std::string path = paths[d.pick(8)]; if (path.find('%') != std::string::npos) c.cls("path:percent-encoded"); std::string query = d.pick(3) == 0 ? "q=1&x=y" : ""; std::string frag = d.pick(4) == 0 ? "frag" : "";
     unsigned em = d.pick(4); bool exU = em == 1 || em == 3, exK = em == 2 || em == 3; if (!embed || !ksiScheme) { exU = exK = true; } /* credentials embedded in a non-ksi URI are not KSI credentials: explicit ones are required there */ std::string xu = "explicitU" + std::to_string(d.pick(100)), xk = "explicitK" + std::to_string(d.pick(100)) + "W";
     int svc = (int)d.pick(S_COUNT); bool async = svc >= S_ASYNC_SIGN; bool aggr = svc == S_AGGR || svc == S_ASYNC_SIGN;
